@@ -44,7 +44,7 @@ INJECT = {
     'src/cache/pool.rs': 'pool.rs',
     'src/cache/config/mod.rs': 'config.rs',
 }
-HARNESS_DIR = os.path.join(VERIF, 'kani', 'harness')
+HARNESS_DIR = os.environ.get('VERIF_HARNESS_DIR', os.path.join(VERIF, 'kani', 'harness'))
 TARGET_DIR = os.environ.get('VERIF_KANI_TARGET', os.path.join(VERIF, 'build', 'kani-target'))
 
 CONFIG_TOML = '''[net]
